@@ -437,6 +437,11 @@ def coeff_set(case):
             alm[l, m] = complex(rng.uniform(-1, 1), rng.uniform(-1, 1))
     for l, m, re, im in case["modes"]:
         alm[l, m] = complex(re, im)
+    # overall amplitude: both maps are linear, so the round trip must hold at
+    # every amplitude (the tolerance below scales with it)
+    amp = 10.0 ** case.get("amp_exp", 0)
+    if amp != 1.0:
+        alm = {k: v * amp for k, v in alm.items()}
     return alm
 
 
@@ -453,8 +458,11 @@ def test_roundtrip(case, note):
              "dense" if case["dense_seed"] is not None else "sparse")
     if s != 0 and (case["junk"][0] or case["junk"][1]):
         note.cls("junk-in-low-l")
-    scale = sum(abs(alm[k]) for k in valid) + 1.0
+    scale = sum(abs(alm[k]) for k in valid) \
+        + 10.0 ** case.get("amp_exp", 0)
     tol = 1e-12 * scale
+    if case.get("amp_exp", 0):
+        note.cls("amplitude=1e%d" % case["amp_exp"])
     f_ref = np.zeros(TH.shape, dtype=complex)
     for k in nz:
         f_ref += alm[k] * ref_sYlm(s, k[0], k[1], TH, PH)
@@ -547,7 +555,9 @@ def roundtrip_case(draw):
     return dict(s=s, lmax=lmax, modes=modes, dense_seed=dense,
                 junk=[draw(coef_f), draw(coef_f)],
                 dth=draw(st.integers(0, 4)), dph=draw(st.integers(0, 6)),
-                phi0=draw(st.floats(-3.2, 3.2, allow_nan=False)))
+                phi0=draw(st.floats(-3.2, 3.2, allow_nan=False)),
+                amp_exp=draw(st.sampled_from([0, 0, 0, -8, -16, -30, -100,
+                                              8, 40])))
 
 
 def roundtrip_generic():
@@ -560,7 +570,7 @@ def roundtrip_generic():
                       phi0=0.0))
         g.append(dict(s=s, lmax=8, modes=[[8, -7, 1.0, 1.0]],
                       dense_seed=12345 + s, junk=[-1.0, 2.0], dth=2, dph=3,
-                      phi0=0.41))
+                      phi0=0.41, amp_exp=[0, -16, -30, 8, -100][s + 2]))
     return g
 
 
@@ -1002,9 +1012,80 @@ def psi4_generic():
 # ---------------------------------------------------------------------------
 
 
+# 7. azimuthal selection rule of Psi4_lm on any grid shape: a trilinear Psi4
+#    is interpolated exactly by the default 'linear' method and contains the
+#    orders |m| <= 2 only (x +- i y ~ e^{+-i phi}, x y ~ e^{+-2 i phi}, z ~ 1),
+#    and the phi sampling of Psi4_lm resolves every |m - m'| <= 2 lmax exactly,
+#    so every coefficient with |m| > 2 vanishes to round-off - also on slabs
+#    with fewer points than lmax in one direction.
+
+
+@st.composite
+def selection_case(draw):
+    N = [draw(st.integers(4, 14)) for _ in range(3)]
+    h = [draw(st.sampled_from([0.25, 0.5, 0.125])) for _ in range(3)]
+    return dict(N=N, h=h, lmax=draw(st.integers(3, 10)),
+                coef=[draw(st.floats(-2, 2, allow_nan=False, width=32))
+                      for _ in range(8)],
+                off=[draw(st.floats(-0.25, 0.25, allow_nan=False, width=32))
+                     for _ in range(3)],
+                rfrac=draw(st.floats(0.25, 0.9375, allow_nan=False, width=32)))
+
+
+def test_selection(case, note):
+    N, h = case["N"], case["h"]
+    x0 = [-(n - 1) * d / 2 for n, d in zip(N, h)]
+    fd = A.make_fd(N, x0, h, 2, "no boundary")
+    cen = [o * d for o, d in zip(case["off"], h)]
+    rmin = min(min(abs(x0[i] - cen[i]), abs(x0[i] + (N[i] - 1) * h[i]
+                                             - cen[i])) for i in range(3))
+    R = float(case["rfrac"]) * rmin
+    if R <= 0:
+        return
+    c = case["coef"]
+    X, Y, Z = fd.x - cen[0], fd.y - cen[1], fd.z - cen[2]
+    re = c[0] * X + c[1] * Y + c[2] * X * Y + c[3] * Z
+    im = c[4] * Y + c[5] * X + c[6] * Z + c[7] * X * Y
+    lmax = int(case["lmax"])
+    note.nt(min(N) < lmax + 1)
+    note.cls("slab(minN<=lmax)" if min(N) <= lmax else "minN>lmax",
+             f"lmax={lmax}")
+    rel = aurel.AurelCore(fd, verbose=False, lmax=lmax, center=tuple(cen),
+                          extract_radii=[R])
+    rel.data["Weyl_Psi4r"] = re
+    rel.data["Weyl_Psi4i"] = im
+    try:
+        out = rel["Psi4_lm"]
+    except Exception as e:  # noqa: BLE001
+        note.fail(f"raises:Psi4_lm:{type(e).__name__}", dict(error=str(e)))
+        return
+    a = out[R] if R in out else list(out.values())[0]
+    amp = (sum(abs(v) for v in c) + 1e-30) * max(R, R * R)
+    worst, wk = 0.0, None
+    for (l, m), v in a.items():
+        if abs(m) > 2 and abs(v) > worst:
+            worst, wk = abs(v), (l, m)
+    if worst > 1e-10 * amp:
+        note.fail("psi4lm:forbidden-order-leakage",
+                  dict(lm=list(wk), value=worst, amplitude=amp, N=N,
+                       lmax=lmax))
+
+
 def subchecks(tier):
     q = tier == "quick"
     return [
+        Sub("psi4lm_selection", selection_case(), test_selection,
+            150 if q else 3000,
+            generic=[dict(N=[16, 16, 4], h=[0.25, 0.25, 0.25], lmax=8,
+                          coef=[1.0, 0.5, -0.7, 0.3, 1.0, -0.4, 0.6, 0.8],
+                          off=[0.1, -0.15, 0.05], rfrac=0.9),
+                     dict(N=[4, 4, 4], h=[0.5, 0.5, 0.5], lmax=8,
+                          coef=[1.0, 0.5, -0.7, 0.3, 1.0, -0.4, 0.6, 0.8],
+                          off=[0.0, 0.0, 0.0], rfrac=0.8),
+                     dict(N=[12, 6, 12], h=[0.25, 0.5, 0.25], lmax=10,
+                          coef=[0.3, 1.5, 0.7, -0.3, -1.0, 0.4, 0.6, -0.8],
+                          off=[-0.1, 0.1, 0.12], rfrac=0.7)],
+            shards=4),
         Sub("orthonormal", ortho_case(), test_orthonormal,
             80 if q else 1500, generic=ortho_generic(), shards=4),
         Sub("values", values_case(8 if q else 12), test_values,
